@@ -414,20 +414,34 @@ pub fn sync_address_lp_weight_history(
     save_last_lp_weight: bool,
 ) -> Result<(), ContractError> {
     let (earliest_epoch_id, _) = get_earliest_address_lp_weight(storage, address, lp_denom)?;
-    let (latest_epoch_id, latest_address_lp_weight) =
+    let (latest_epoch_id, _) =
         get_latest_address_lp_weight(storage, address, lp_denom, current_epoch_id)?;
 
+    // when clearing the whole history every entry goes, otherwise only the entries up to the
+    // epoch being synced, as later entries record weight changes that are not in effect yet
+    let remove_until = if save_last_lp_weight {
+        latest_epoch_id.min(*current_epoch_id)
+    } else {
+        latest_epoch_id
+    };
+
+    // the weight in effect at current_epoch_id, i.e. the last one recorded up to that epoch
+    let mut address_lp_weight = Uint128::zero();
+
     // remove previous entries
-    for epoch_id in earliest_epoch_id..=latest_epoch_id {
+    for epoch_id in earliest_epoch_id..=remove_until {
+        if let Some(weight) = LP_WEIGHT_HISTORY.may_load(storage, (address, lp_denom, epoch_id))? {
+            address_lp_weight = weight;
+        }
         LP_WEIGHT_HISTORY.remove(storage, (address, lp_denom, epoch_id));
     }
 
     if save_last_lp_weight {
-        // save the latest weight for the current epoch
+        // save the weight in effect for the current epoch
         LP_WEIGHT_HISTORY.save(
             storage,
             (address, lp_denom, *current_epoch_id),
-            &latest_address_lp_weight,
+            &address_lp_weight,
         )?;
     }
 
